@@ -82,17 +82,23 @@ type nativeMethod struct {
 	compiler   *GoCompiler
 	state      nativeMethodState
 	withoutErr bool
+	optimised  bool // optimiseNativeCalls has already run for this method
 }
 
 func (n *nativeMethod) optimiseNativeCalls() bool {
 	if n.state == nativeMethodChecking {
 		return false
 	}
+	if n.optimised {
+		// the buffers of the method have already been rewritten (and possibly flushed)
+		return n.withoutErr
+	}
 
 	n.state = nativeMethodChecking
 
 	optimised := n.compiler.optimiseNativeCalls()
 	n.withoutErr = optimised
+	n.optimised = true
 
 	n.state = nativeMethodChecked
 	return optimised
